@@ -620,8 +620,10 @@ func ruleTypestate(c *Ctx) {
 			lb.rootOnlyForEmptyPointer(l, ai)
 		}
 		lb.decodedOnlyBehindDecoder(l, c.nilFor(lb))
+		lb.handedOutOnlyWhenMarked(l, c.nilFor(lb))
 	}
 	b.decodedOnlyBehindDecoder(l, a)
+	b.handedOutOnlyWhenMarked(l, a)
 	// T1: producer side for eDoc
 	for _, fn := range a.fns {
 		allInstrs(fn, func(i ssa.Instruction) {
@@ -1582,4 +1584,88 @@ func (b *Body) isDecodeHelper(f *ssa.Function, depth int) bool {
 		}
 	}
 	return true
+}
+
+// handedOutOnlyWhenMarked (R-TYPESTATE): a node hands out its container (intoDoc, intoAry)
+// only as a node that is marked decoded. Callers change the container they are given; the
+// encoder writes a node that is still marked "text" from its text. A path that builds the
+// container and returns it without the mark (a shortcut for `{}`) makes every change made
+// through that container vanish from the output.
+func (b *Body) handedOutOnlyWhenMarked(l *Ledger, a *nilAn) {
+	for _, fn := range a.fns {
+		if len(fn.Params) == 0 || !isPtrToNamed(fn.Params[0].Type(), "lazyNode") || fn.Parent() != nil {
+			continue
+		}
+		ei := errResultIndex(fn)
+		if ei <= 0 {
+			continue
+		}
+		recv := ssa.Value(fn.Params[0])
+		// the stores of a decoded state into the receiver, and the tests of it
+		var marks []ssa.Instruction
+		allInstrs(fn, func(i ssa.Instruction) {
+			if st, ok := i.(*ssa.Store); ok {
+				if fa, ok := st.Addr.(*ssa.FieldAddr); ok && fa.X == recv && fieldOfAddr(fa).Field == "which" {
+					if k, isK := intConst(st.Val); isK && k != a.eRaw {
+						marks = append(marks, st)
+					}
+				}
+			}
+		})
+		n := 0
+		bad := ""
+		for _, r := range liveReturns(fn) {
+			if !isNilConst(retVal(r, ei)) {
+				continue
+			}
+			// is result 0 the receiver's own doc or ary (its address, or what it holds)?
+			v := unwrapConv(retVal(r, 0))
+			if mi, ok := v.(*ssa.MakeInterface); ok {
+				v = unwrapConv(mi.X)
+			}
+			var fa *ssa.FieldAddr
+			switch x := v.(type) {
+			case *ssa.FieldAddr:
+				fa = x
+			case *ssa.UnOp:
+				if x.Op == token.MUL {
+					fa, _ = x.X.(*ssa.FieldAddr)
+				}
+			}
+			if fa == nil || fa.X != recv {
+				continue
+			}
+			if f := fieldOfAddr(fa).Field; f != "doc" && f != "ary" {
+				continue
+			}
+			n++
+			marked := false
+			for _, m := range marks {
+				if b.instrDominates(m, r) {
+					marked = true
+				}
+			}
+			if !marked {
+				// the early return for a node that is decoded already
+				key := pathKey{recv, "which"}
+				if ok, _ := a.holdsPathFact(r, key, "lazyNode", func(f pathFact) bool {
+					return (f.Kind == fEqInt && f.Val != a.eRaw) || (f.Kind == fNeInt && f.Val == a.eRaw)
+				}); ok {
+					marked = true
+				}
+			}
+			if !marked {
+				bad = "the return at " + b.posOf(r) + " hands out the node's container without the node being marked decoded (no store of a decoded state before it, no which-test around it): the node is written out from its old text, and what callers put into the container is lost"
+			}
+		}
+		if n == 0 {
+			continue
+		}
+		key := fname(fn) + ": the container is handed out only by a node marked decoded"
+		if bad != "" {
+			l.add("R-TYPESTATE", b.Name, key, b.rel(fn.Pos()), Violated, bad, true)
+		} else {
+			l.add("R-TYPESTATE", b.Name, key, b.rel(fn.Pos()), Discharged, fmt.Sprintf("%d successful return(s) of the node's own container, each behind the store of the decoded state or under a test of it", n), true)
+		}
+	}
 }
